@@ -56,17 +56,6 @@ class _ppic:
                          'state["_num_pictures_in_sequence"] == old(state["_num_pictures_in_sequence"]) + 1']
 
 
-@spec(PD + "picture_decode")
-class _pdec:
-    args = {"state": STATE}
-    requires = ["slice_ctx(state)", "hdr_known(state)", 'has(state, "picture_number")', 'has(state, "video_parameters")']
-    modifies = ['state["current_picture"]']
-    raises = {}
-    ensures = ['has(state, "current_picture")']
-    trusted = ("inverse wavelet transform, clipping, offsetting and the output callback: array-heavy code outside this property's verified subset "
-               "(its exception-freedom is exercised by the bounded round trips of C11 and proved in part under C09); the callback is assumed not to touch `state`")
-
-
 # ---- fragments -----------------------------------------------------------------------------------------
 
 
@@ -96,6 +85,7 @@ class _fh:
     ensures = IO_POST + ["hdr_known(state)", "numbering_ok(state)", "frag_ok(state)",
                          'has(state, "picture_number") and has(state, "fragment_slice_count") and state["fragment_slice_count"] >= 0',
                          'state["_fragment_slices_remaining"] == old(state["_fragment_slices_remaining"])',
+                         'state["_num_pictures_in_sequence"] == old(state["_num_pictures_in_sequence"]) + (1 if state["fragment_slice_count"] == 0 else 0)',
                          # (14.2) a new picture only starts when the previous one is complete
                          'implies(state["fragment_slice_count"] == 0, old(state["_fragment_slices_remaining"]) == 0 and has(state, "_picture_initial_fragment_offset") '
                          'and has(state, "_last_picture_number") and state["_last_picture_number"] == state["picture_number"])',
@@ -103,6 +93,7 @@ class _fh:
                          'implies(state["fragment_slice_count"] != 0, state["fragment_slice_count"] <= state["_fragment_slices_remaining"] '
                          'and has(state, "fragment_x_offset") and has(state, "fragment_y_offset") '
                          'and state["fragment_y_offset"] * state["slices_x"] + state["fragment_x_offset"] == state["fragment_slices_received"] '
+                         'and 0 <= state["fragment_x_offset"] and state["fragment_x_offset"] < state["slices_x"] '
                          'and state["picture_number"] == state["_last_picture_number"])']
 
 
@@ -124,7 +115,8 @@ class _fd:
     requires = FRAG_PRE + ['has(state, "fragment_slice_count") and state["fragment_slice_count"] >= 1',
                            'state["fragment_slice_count"] <= state["_fragment_slices_remaining"]',
                            'has(state, "fragment_x_offset") and has(state, "fragment_y_offset")',
-                           'state["fragment_y_offset"] * state["slices_x"] + state["fragment_x_offset"] == state["fragment_slices_received"]']
+                           'state["fragment_y_offset"] * state["slices_x"] + state["fragment_x_offset"] == state["fragment_slices_received"]',
+                           '0 <= state["fragment_x_offset"] and state["fragment_x_offset"] < state["slices_x"]']
     modifies = FRAME_IOB + ['state["_level_constrained_values"]', "state.g_lcv_level", 'state["quantizer"]', "all_grids()", 'state["fragment_slices_received"]',
                             'state["_fragment_slices_remaining"]', 'state["fragmented_picture_done"]']
     raises = {"ConformanceError": None}
@@ -149,8 +141,16 @@ class _fp:
     modifies = TP_MOD + TD_MOD + NUM_MOD + ['state["%s"]' % k for k in FRAG_KEYS] + [
         'state["fragment_slices_received"]', 'state["_fragment_slices_remaining"]', 'state["fragmented_picture_done"]']
     raises = {"ConformanceError": None}
+    split_body = True   # the two branches (first fragment / slice-carrying fragment) are proved as separate paths
     ensures = IO_POST + ["hdr_known(state)", "numbering_ok(state)", "frag_ok(state)", 'has(state, "fragmented_picture_done")',
-                         'implies(state["fragmented_picture_done"], slice_ctx(state) and has(state, "picture_number"))']
+                         'implies(state["fragmented_picture_done"], slice_ctx(state) and has(state, "picture_number"))',
+                         # bookkeeping the output-count invariant of parse_sequence relies on (C09)
+                         'state["fragmented_picture_done"] == (state["_fragment_slices_remaining"] == 0 and state["fragment_slice_count"] != 0)',
+                         'implies(state["fragment_slice_count"] == 0, old(state["_fragment_slices_remaining"]) == 0 and state["_fragment_slices_remaining"] >= 1 '
+                         'and state["_num_pictures_in_sequence"] == old(state["_num_pictures_in_sequence"]) + 1)',
+                         'implies(state["fragment_slice_count"] != 0, old(state["_fragment_slices_remaining"]) >= 1 '
+                         'and state["_num_pictures_in_sequence"] == old(state["_num_pictures_in_sequence"]))',
+                         'has(state, "fragment_slice_count")']
 
 
 # ---- reset_state / parse_sequence / parse_stream ---------------------------------------------------------------
@@ -158,6 +158,7 @@ class _fp:
 from vc2_conformance.pseudocode.state import State, retained_state_fields  # noqa: E402
 
 ALL_KEYS = list(State.entry_objs.keys())
+CB_MOD = ['state["_output_picture_callback"].%s if has(state, "_output_picture_callback") else None' % f for f in ("g_out", "g_last_pic", "g_last_vp", "g_last_pcm")]
 # C10 (from the property statement, not from the code): nothing but the I/O position, the file and the output
 # callback may carry over from one sequence to the next
 CARRIED_OVER = ["_output_picture_callback", "next_bit", "current_byte", "_file", "_recorded_bytes"]
@@ -249,9 +250,12 @@ class _pseq:
     # or written before it is read within this call
     requires = ["dinv(state)", 'not has(state, "_recorded_bytes")']
     modifies = ['state["%s"]' % k for k in ALL_KEYS if k not in ("_output_picture_callback", "_file")] + [
-        'state["_file"].fpos', "all_grids()", "state.g_lcv_level"]
+        'state["_file"].fpos', "all_grids()", "state.g_lcv_level"] + CB_MOD
     raises = {"ConformanceError": None}
     ensures = ["dinv(state)", 'not has(state, "_recorded_bytes")',
+               # C09: exactly one picture is output per picture data unit and per completed fragmented picture
+               'implies(has(state, "_output_picture_callback"), '
+               'state["_output_picture_callback"].g_out == old(state["_output_picture_callback"].g_out) + state["_num_pictures_in_sequence"])',
                # C01: what every accepted sequence satisfies (necessary conditions of acceptance, from the property statement)
                'has(state, "parse_code") and state["parse_code"] == 0x10',                      # ends with an end-of-sequence data unit
                "hdr_known(state)",                                                               # ... and contained a sequence header (which came first)
@@ -259,7 +263,10 @@ class _pseq:
                'implies(state["picture_coding_mode"] == 1, state["_num_pictures_in_sequence"] % 2 == 0)',  # whole frames
                'state["next_parse_offset"] == 0',                                                 # end of sequence has no next offset
                ]
-    invariants = {1: SEQ_INV + ['existing_unchanged("val_m_count")', 'existing_unchanged("elem")', 'existing_unchanged("len")']}
+    invariants = {1: SEQ_INV + ['existing_unchanged("val_m_count")', 'existing_unchanged("elem")', 'existing_unchanged("len")',
+                                # C09: pictures output so far == pictures started - [a fragmented picture is still in progress]
+                                'implies(has(state, "_output_picture_callback"), state["_output_picture_callback"].g_out == '
+                                'old(state["_output_picture_callback"].g_out) + state["_num_pictures_in_sequence"] - (1 if state["_fragment_slices_remaining"] > 0 else 0))']}
     split_loops = [1]
 
 
@@ -268,10 +275,11 @@ class _pstream:
     args = {"state": STATE}
     requires = ["dinv(state)", 'not has(state, "_recorded_bytes")']
     modifies = ['state["%s"]' % k for k in ALL_KEYS if k not in ("_output_picture_callback", "_file")] + [
-        'state["_file"].fpos', "all_grids()", "state.g_lcv_level"]
+        'state["_file"].fpos', "all_grids()", "state.g_lcv_level"] + CB_MOD
     raises = {"ConformanceError": None}
     ensures = ["dinv(state)", "dpos(state) == nbits_total(state)"]
     invariants = {1: ["dinv(state)", 'not has(state, "_recorded_bytes")']}
 
 
+from contracts import c09_picture_output  # noqa: E402,F401  (verified contract of picture_decode and below)
 from contracts.c02_corpus import MONITOR_DRIVER  # noqa: E402,F401  (native fallback: run-time monitoring over corpus streams)
